@@ -40,6 +40,26 @@ Section C17.
       snd r = snd (spec_result cache event data err run c_fresh e).
   Proof. exact (isolation cache event data err run c_fresh cache_inv run_keeps_inv run_cache_independent). Qed.
 
+  (* every history of a sequential consumer, not only a full drain: after j
+     calls of __anext__ (the consumer may stop early or keep calling after the
+     end) it holds exactly the first j specified results followed by "ended"
+     answers, the source has delivered exactly min j n items (no read-ahead, no
+     skipping) and the rest of the source is untouched *)
+  Theorem C17_history : forall (j : nat) (s : sub_state cache event err),
+    cache_inv (es_cache (ss_exec s)) ->
+    let n := length (ss_source s) in
+    snd (pulls cache event data err run j s) =
+      map Some (firstn j (map (spec_result cache event data err run c_fresh) (ss_source s)))
+      ++ repeat None (j - n) /\
+    ss_source (fst (pulls cache event data err run j s)) = skipn j (ss_source s) /\
+    ss_consumed (fst (pulls cache event data err run j s)) = ss_consumed s + Nat.min j n.
+  Proof.
+    intros j s Hinv.
+    destruct (pulls_spec cache event data err run c_fresh cache_inv run_keeps_inv run_cache_independent j s Hinv)
+      as (A & B & C & _).
+    repeat split; assumption.
+  Qed.
+
   (* the stream ends when, and only when, the source has ended; every event
      has then been consumed exactly once *)
   Theorem C17_ends : forall s : sub_state cache event err,
@@ -79,10 +99,13 @@ Section C17.
          subscribe cache event err c_created q events = (Refused RefNotSubscription, false, 0)) /\
       (sq_is_subscription q = true -> sq_runtime_streams q = false ->
          subscribe cache event err c_created q events = (Refused RefRuntime, false, 0)) /\
-      (sq_is_subscription q = true -> sq_runtime_streams q = true -> sq_root_fields q <> 1 ->
+      (sq_is_subscription q = true -> sq_runtime_streams q = true -> sq_root_collect_ok q = false ->
+         subscribe cache event err c_created q events = (Refused RefDirectiveArguments, false, 0)) /\
+      (sq_is_subscription q = true -> sq_runtime_streams q = true -> sq_root_collect_ok q = true ->
+       sq_root_fields q <> 1 ->
          subscribe cache event err c_created q events = (Refused RefFieldCount, false, 0)) /\
-      (sq_is_subscription q = true -> sq_runtime_streams q = true -> sq_root_fields q = 1 ->
-       sq_field_defined q = true -> sq_has_subscription_resolver q = false ->
+      (sq_is_subscription q = true -> sq_runtime_streams q = true -> sq_root_collect_ok q = true ->
+       sq_root_fields q = 1 -> sq_field_defined q = true -> sq_has_subscription_resolver q = false ->
          subscribe cache event err c_created q events = (Refused RefNoResolver, false, 0))).
   Proof.
     intros q events. split.
@@ -90,12 +113,13 @@ Section C17.
       destruct (refusals cache event err c_created q events r called consumed H) as (A & B & C & _).
       repeat split; assumption.
     - intros H1 H2.
-      destruct (refusal_conditions cache event err c_created q events H1 H2) as (A & B & C & D & _).
+      destruct (refusal_conditions cache event err c_created q events H1 H2) as (A & B & C & D & E & _).
       repeat split; assumption.
   Qed.
 End C17.
 
 Print Assumptions C17_length_order.
+Print Assumptions C17_history.
 Print Assumptions C17_isolation.
 Print Assumptions C17_ends.
 Print Assumptions C17_sequential_pull.
@@ -204,3 +228,60 @@ Proof.
     exact (stream_keeps_tables_sound sch frags vs coerce_args world tyres cfuel se ae H1 H2 fuel rt sels s Hinv).
 Qed.
 Print Assumptions C17_tables_stay_sound.
+
+(* subscribe() on a real document: the facts the refusal checks read are
+   computed with C04's get_operation / collect_for / field_definition
+   (request_facts), the subscription resolver's presence is a parameter.  Every
+   refusal happens with the resolver not called and nothing consumed, and says
+   what was wrong with the request (a query / mutation operation; a runtime
+   without streams; invalid @skip/@include arguments on the root selection
+   set; not exactly one root field; no field definition or no subscription
+   resolver for it); otherwise the operation is a subscription with exactly
+   one root field that has a subscription resolver and the response stream is
+   the per-event table-free execution of its selection. *)
+Theorem C17_subscribe_exec :
+  forall sch coerce_args world tyres cfuel sels_eqb argkey_eqb,
+    (forall a b, sels_eqb a b = true -> a = b) ->
+    (forall a b, argkey_eqb a b = true -> a = b) ->
+    forall fuel has_sub_resolver c_created d opname vs vars_ok streams events,
+    match subscribe_exec sch cfuel has_sub_resolver c_created d opname vs vars_ok streams events with
+    | (Refused r, called, consumed) =>
+        called = false /\ consumed = 0 /\
+        match r with
+        | RefInvalidOperation =>
+            (forall k sels, get_operation d opname = Ok (k, sels) -> root_of sch k = None)
+        | RefVariables => vars_ok = false
+        | RefNotSubscription =>
+            exists k sels, get_operation d opname = Ok (k, sels) /\ is_subscription_op k = false
+        | RefRuntime => streams = false
+        | RefDirectiveArguments =>
+            exists sels rt, get_operation d opname = Ok (OpSubscription, sels) /\
+              s_subscription sch = Some rt /\
+              forall g, collect_for sch (frag_table_of (doc_defs d)) vs cfuel rt sels <> Ok g
+        | RefFieldCount =>
+            exists sels rt g, get_operation d opname = Ok (OpSubscription, sels) /\
+              s_subscription sch = Some rt /\
+              collect_for sch (frag_table_of (doc_defs d)) vs cfuel rt sels = Ok g /\ length g <> 1
+        | RefNoFieldDef | RefNoResolver =>
+            exists sels rt kn, get_operation d opname = Ok (OpSubscription, sels) /\
+              s_subscription sch = Some rt /\
+              collect_for sch (frag_table_of (doc_defs d)) vs cfuel rt sels = Ok [kn]
+        end
+    | (Started s0, called, consumed) =>
+        called = true /\ consumed = 0 /\ vars_ok = true /\ streams = true /\
+        exists sels rt key node nodes k fd,
+          get_operation d opname = Ok (OpSubscription, sels) /\ s_subscription sch = Some rt /\
+          collect_for sch (frag_table_of (doc_defs d)) vs cfuel rt sels = Ok [(key, node :: nodes)] /\
+          field_definition sch rt (sel_name node) = Ok (Some (k, fd)) /\
+          has_sub_resolver rt (f_name fd) = true /\
+          s0 = SubState (ExecState c_created []) events 0 [] /\
+          (cache_inv sch (frag_table_of (doc_defs d)) vs coerce_args cfuel c_created ->
+           snd (drain cache pv (outcome pv) error
+                  (run_c sch (frag_table_of (doc_defs d)) vs coerce_args world tyres cfuel sels_eqb argkey_eqb fuel rt sels) s0)
+           = map (fresh_result sch (frag_table_of (doc_defs d)) vs coerce_args world tyres cfuel fuel rt sels) events)
+    end.
+Proof.
+  intros sch coerce_args world tyres cfuel se ae H1 H2 fuel has_res c0 d opname vs vars_ok streams events.
+  exact (subscribe_exec_spec sch coerce_args world tyres cfuel se ae H1 H2 fuel has_res c0 d opname vs vars_ok streams events).
+Qed.
+Print Assumptions C17_subscribe_exec.
